@@ -240,6 +240,9 @@ var errorType = types.Universe.Lookup("error").Type()
 
 func isErrorType(t types.Type) bool { return types.Identical(t, errorType) }
 
+// IsErrorType reports whether t is the predeclared error interface.
+func IsErrorType(t types.Type) bool { return isErrorType(t) }
+
 // ErrValues returns the SSA values carrying the error result(s) of a call.
 func ErrValues(c ssa.CallInstruction) []ssa.Value {
 	v := c.Value()
